@@ -189,7 +189,8 @@ def leg_kill_sweep(cases, flavour, max_points=40, jobs=8):
         tmpl = os.path.join(C.scratch_root(), f"kill-tmpl{next(E._counter)}")
         rs = T.run_traced(flavour, case["setup"], scratch=tmpl)
         try:
-            case["_crash_set"] = model_crash_set(case["setup"], rs.impl_lines, case["victim"])
+            case["_crash_set"] = (model_crash_set(case["setup"], rs.impl_lines, case["victim"])
+                                  if isinstance(case["victim"], str) else None)
         except Exception:
             case["_crash_set"] = None
 
@@ -198,8 +199,11 @@ def leg_kill_sweep(cases, flavour, max_points=40, jobs=8):
             shutil.rmtree(d, ignore_errors=True)
             shutil.copytree(tmpl, d, symlinks=True)
             return d
+        vops = case["victim"] if isinstance(case["victim"], list) else [case["victim"]]
+        if len(vops) > 1:
+            case["_crash_set"] = None          # the model's crash sets are per single operation
         sc = fresh()
-        base = T.run_traced(flavour, [case["victim"]], scratch=sc, reuse=True, env_extra=W)
+        base = T.run_traced(flavour, vops, scratch=sc, reuse=True, env_extra=W)
         shutil.rmtree(sc, ignore_errors=True)
         names = KILL_SET.split(",")
         pids = list(base.counts_by_pid)
@@ -211,7 +215,7 @@ def leg_kill_sweep(cases, flavour, max_points=40, jobs=8):
             ns = sorted(set(ns[int(i * step)] for i in range(max_points)))
         for n in ns:
             scratch = fresh()
-            r = T.run_traced(flavour, [case["victim"]], scratch=scratch, reuse=True, env_extra=W,
+            r = T.run_traced(flavour, vops, scratch=scratch, reuse=True, env_extra=W,
                              inject=f"inject={KILL_SET}:signal=SIGKILL:when={n}", keep=False)
             # look at what is left, with a fresh process
             key = case["key"]
@@ -233,16 +237,18 @@ def leg_kill_sweep(cases, flavour, max_points=40, jobs=8):
                 continue
             points += 1
             during_setup = False          # the setup ran (unharmed) in a process of its own
-            where = f"kill at syscall {n} of `{case['victim'][:60]}`"
+            vtxt = case["victim"] if isinstance(case["victim"], str) else " ; ".join(case["victim"])
+            vlist = [case["victim"]] if isinstance(case["victim"], str) else case["victim"]
+            where = f"kill at syscall {n} of `{vtxt[:60]}`"
             il = r2.impl_lines
             if len(il) < len(probe):
-                f = Failure("unusable_after_crash", n, f"{where}: inspection stopped after {len(il)} ops", sig={"victim": case['victim'].split(' ')[0]})
-                f.replay_text = "\n".join(case["setup"] + [case["victim"]]) + f"\n# killed with inject={KILL_SET}:signal=SIGKILL:when={n}\n"
+                f = Failure("unusable_after_crash", n, f"{where}: inspection stopped after {len(il)} ops", sig={"victim": vtxt.split(' ')[0]})
+                f.replay_text = "\n".join(case["setup"] + vlist) + f"\n# killed with inject={KILL_SET}:signal=SIGKILL:when={n}\n"
                 failures.append(f)
                 continue
             fs_ = content_valid_monitor(il[0], where)
             fs_ += content_valid_monitor(il[-1], where + " (after a further write)")
-            fs_ += trace_monitor(r, [case["victim"]], where + ": ")
+            fs_ += trace_monitor(r, vlist, where + ": ")
             # crash correspondence: the tree a real SIGKILL leaves is one of the model's crash states
             cs = case.get("_crash_set")
             if cs is not None:
@@ -252,11 +258,11 @@ def leg_kill_sweep(cases, flavour, max_points=40, jobs=8):
                 crash_compared += 1
                 if real not in cs:
                     best = sorted(cs, key=lambda m_: len(m_ ^ real))[0]
-                    disagreements.append({"prog": case["victim"][:40], "op_index": len(case["setup"]), "op": case["victim"][:200],
+                    disagreements.append({"prog": vtxt[:40], "op_index": len(case["setup"]), "op": vtxt[:200],
                                           "what": f"the tree left by a real SIGKILL ({where}) is not among the model's crash states",
                                           "real": sorted(f"{k_}:{p_}:{len(b_)}" for k_, p_, b_ in real - best)[:8],
                                           "model": [f"{len(cs)} crash states; nearest differs in"] + sorted(f"{k_}:{p_}:{len(b_)}" for k_, p_, b_ in best - real)[:8],
-                                          "ops": case["setup"] + [case["victim"], f"# killed with inject={KILL_SET}:signal=SIGKILL:when={n}"]})
+                                          "ops": case["setup"] + vlist + [f"# killed with inject={KILL_SET}:signal=SIGKILL:when={n}"]})
             # old or new
             old, new = case.get("old"), case.get("new")
             for j in (1, 2):
@@ -267,7 +273,7 @@ def leg_kill_sweep(cases, flavour, max_points=40, jobs=8):
                 got = "ERR" if m == "ERR" else (None if m is None else m["sri"])
                 if got not in okset:
                     fs_.append(Failure("mixed_or_broken_entry", n, f"{where}: lookup gives {str(got)[:40]}, neither the old nor the new entry",
-                                       sig={"victim": case['victim'].split(' ')[0]}))
+                                       sig={"victim": vtxt.split(' ')[0]}))
             rd = toks(il[3])
             if rd[0] == "ok":
                 okdata = [v[1] for v in (old, new) if v is not None]
@@ -291,11 +297,11 @@ def leg_kill_sweep(cases, flavour, max_points=40, jobs=8):
             if w_after[0] != "ok" or r_after[0] != "ok" or unhx(r_after[1]) != b"after the crash":
                 fs_.append(Failure("unusable_after_crash", n, f"{where}: a later write to the same key is not visible ({' '.join(w_after[:2])} / {' '.join(r_after[:2])[:40]})"))
             for f in fs_:
-                f.replay_text = "\n".join(case["setup"] + [case["victim"]]) + f"\n# killed with inject={KILL_SET}:signal=SIGKILL:when={n}; then:\n" + "\n".join(probe) + "\n"
+                f.replay_text = "\n".join(case["setup"] + vlist) + f"\n# killed with inject={KILL_SET}:signal=SIGKILL:when={n}; then:\n" + "\n".join(probe) + "\n"
             failures += fs_
             states.add(hashlib.sha1(re.sub(r"time\D{1,6}\d+", "", il[0]).encode()).hexdigest())
             if len(samples) < 3:
-                samples.append({"victim": case["victim"][:100], "kill_at_syscall": n, "killed": r.killed,
+                samples.append({"victim": vtxt[:100], "kill_at_syscall": n, "killed": r.killed,
                                 "events_before_kill": T.skeleton(r.events[-1] if r.events else [])[-4:],
                                 "lookup_after": il[1][:80]})
     return {"failures": failures, "disagreements": disagreements, "evaluations": points, "distinct_nontrivial": len(states),
@@ -315,7 +321,16 @@ def kill_cases(r, n):
             setup.append(w_oneshot("s", "sha256", key, shared[1]))
         cases.append({"setup": setup, "victim": w_oneshot(vf, "sha256", key, shared[1]), "key": key, "old": old,
                       "new": shared, "others": {b"other": shared}})
-    for i in range(max(0, n - 3)):
+    # a streamed writer with a declared size that receives FEWER bytes (its commit is rejected), the bytes being
+    # another key's value: at no kill point of open / write / commit may that key's content be harmed
+    for vf, keyed in (("s", True), ("s", False), ("a", False)):
+        shared = ("sha256", b"other value")
+        kk = b"kshort"
+        victim = [f"wopen {vf} c0 W1 {hx(kk) if keyed else '-'} algo=sha256 size={len(shared[1]) + 1000} sri=- time=- meta=- raw=-",
+                  f"wwrite W1 {hx(shared[1])}", "wcommit W1"]
+        cases.append({"setup": [w_oneshot("s", "sha256", b"other", b"other value")], "victim": victim, "key": kk,
+                      "old": None, "new": None, "others": {b"other": shared}})
+    for i in range(max(0, n - 6)):
         key = r.pick([b"k", "ключ-é".encode(), b"tab\tkey", b"key with spaces"])
         algo = r.pick(L.ALGOS)
         old = (r.pick(L.ALGOS), b"old value " + bytes([i])) if r.chance(0.6) else None
